@@ -371,14 +371,13 @@ func main() {
 	os.Exit(exit)
 }
 
-// crashFailure: a worker died while executing a run. If the death is a Go panic / fatal exit with
+// crashFailure: a worker died while executing a run. If its watchdog found node code waiting for a sync
+// lock that nobody releases, the node is wedged: requests are never answered, which every property's
+// workload relies on (rule node-wedged, any property). If the death is a Go panic / fatal exit with
 // frames of the repository on the stack and the same scenario kills a fresh process again, it is
 // a violation of "no request can crash a node" (C20); for other properties it stays an
 // infrastructure error (exit 2) with the stack.
 func crashFailure(bin, prop, out, tail string) (failure, bool) {
-	if prop != "C20" {
-		return failure{}, false
-	}
 	if i := strings.Index(tail, "WATCHDOG-WEDGE: "); i >= 0 {
 		// the worker's watchdog found node code waiting for a lock nobody releases: the node is wedged
 		line := tail[i:]
@@ -402,6 +401,9 @@ func crashFailure(bin, prop, out, tail string) (failure, bool) {
 		}
 		return failure{RunIndex: cur.RunIndex, Scenario: cur.Scenario, Violation: violation{Prop: prop, Rule: "node-wedged", Sig: "node-wedged " + where,
 			Detail: "the run stood still until the watchdog fired: " + strings.TrimPrefix(line, "WATCHDOG-WEDGE: ") + " (replaying re-executes the scenario and waits for the watchdog again)"}}, true
+	}
+	if prop != "C20" {
+		return failure{}, false
 	}
 	if !(strings.Contains(tail, "panic:") || strings.Contains(tail, "fatal error:") || strings.Contains(tail, "goroutine ")) || !strings.Contains(tail, "github.com/kubewharf/kubebrain/") {
 		return failure{}, false
@@ -554,7 +556,7 @@ func doReplay(bin, prop, path string) int {
 	var errBuf strings.Builder
 	cmd.Stderr = io.MultiWriter(os.Stderr, &errBuf)
 	if err := cmd.Run(); err != nil {
-		if i := strings.Index(errBuf.String(), "WATCHDOG-WEDGE: "); i >= 0 && prop == "C20" {
+		if i := strings.Index(errBuf.String(), "WATCHDOG-WEDGE: "); i >= 0 {
 			line := errBuf.String()[i:]
 			if j := strings.Index(line, "\n"); j > 0 {
 				line = line[:j]
